@@ -1,0 +1,13 @@
+//go:build verif
+// +build verif
+
+// Contracts for deductive verification (govc, /verif). Comment-only file.
+
+package xuperos
+
+// A submitted transaction reaches DoTx only after VerifyTx answered true without
+// error for that same transaction.
+//@ func Chain.SubmitTx
+//@   property C07
+//@   at State.DoTx assert only_after_positive_verdict: isValid && $0 == tx
+//@   at State.VerifyTx assert verifies_submitted_tx: $0 == tx
